@@ -166,6 +166,28 @@ Theorem C01_reader_oracle_is_read_root : forall junk s,
 Proof. exact parse_of_reader. Qed.
 Print Assumptions C01_reader_oracle_is_read_root.
 
+(* ... and with the goxmldsig oracle instantiated as well: Dsig.v's verifier with canon := Canon.canon_model and
+   reparse := XmlTok.read_tree (DsigReader.dsig_validate_reader; Prop_DSIG.DSIG_sound_reader* say what it accepts), under a store
+   and the SP clock.  Every parser of the inbound SSO path -- the wire bytes, the plaintext of decrypted assertions, the canonical
+   bytes the verifier re-reads -- is now the one tokenizer / tree-building model; what remains an oracle of the composed inbound
+   model: DEFLATE, the round-trip validator, digest and signature check, X.509 parsing, RSA / AES, SHA-1 hex. *)
+From V Require Import Dsig Canon DsigReader.
+Theorem C01_source_inbound_pipeline_from_bytes_crypto_oracles_only :
+  forall inflate rt_ok digest sig_ok x509_parse store rsa_oaep rsa_pkcs1 gcm_open cbc_decrypt sha1_hex parse_cert cfg kc venc now junk enc,
+    norm_pm (G_ValidateEncodedResponse (src_parse inflate (reader_with junk) rt_ok cfg)
+               (dsig_validate_reader digest sig_ok x509_parse store now)
+               (src_decrypt_all inflate (reader_with junk) rt_ok rsa_oaep rsa_pkcs1 gcm_open cbc_decrypt parse_cert cfg kc venc now) cfg now enc)
+    = PVal (norm_res (entry (bytes_parse inflate rt_ok cfg) enc
+                        (validate_response_tree (dsig_validate_reader digest sig_ok x509_parse store now)
+                           (bytes_chain inflate rt_ok rsa_oaep rsa_pkcs1 gcm_open cbc_decrypt sha1_hex parse_cert cfg kc venc now)
+                           cfg now))).
+Proof.
+  exact (fun inflate rt_ok digest sig_ok x509_parse store rsa_oaep rsa_pkcs1 gcm_open cbc_decrypt sha1_hex parse_cert cfg kc venc now junk enc =>
+           source_inbound_pipeline_from_bytes inflate rt_ok (dsig_validate_reader digest sig_ok x509_parse store now)
+             rsa_oaep rsa_pkcs1 gcm_open cbc_decrypt sha1_hex parse_cert cfg kc venc now junk enc).
+Qed.
+Print Assumptions C01_source_inbound_pipeline_from_bytes_crypto_oracles_only.
+
 Theorem C01_source_inbound_pipeline_from_bytes_sound :
   forall inflate rt_ok dsig rsa_oaep rsa_pkcs1 gcm_open cbc_decrypt sha1_hex parse_cert cfg kc venc now junk enc r,
     cfg_skip_sig cfg = false ->
